@@ -324,7 +324,11 @@ def run(tier, rep):
                           '%s: evaluation #%d %s is not a term of the stencil the specification assigns to this configuration (or extra args were not forwarded)' % (t['cfg']['key'], k + 1, nxt))
         elif accepted[i]['n'] != len(t['ev']):
             raise vlib.MachineryError('trace length mismatch')
-    states, trans, per = vlib.merge_tlc([res])
+    sres, sstats = [], {}
+    if tier != 'quick':
+        import suite_traces
+        sres, sstats = suite_traces.check_evals(rep)     # every call the repository's own tests make, recorded from outside
+    states, trans, per = vlib.merge_tlc([res] + sres)
     cls_count = {}
     for t in traces:
         cls_count[t['cfg']['cls']] = cls_count.get(t['cfg']['cls'], 0) + 1
@@ -332,7 +336,7 @@ def run(tier, rep):
                samples=[dict(cfg=traces[0]['cfg'], ev=traces[0]['ev'][:6]), dict(cfg=traces[-1]['cfg'], ev=traces[-1]['ev'][:6])],
                evaluations=len(traces), distinct_nontrivial=len({t['cfg']['key'] for t in traces if len(t['ev']) > 2}),
                rule='one trace per (class, method, n, order, dimension, step option, x); non-trivial = more than two evaluations',
-               per_class=cls_count, tlc=per, negative_controls_rejected=len(controls))
+               per_class=cls_count, tlc=per, negative_controls_rejected=len(controls), **sstats)
     assum = ['projection of arguments onto (coordinates, unit, step index) in harness/evalproj.py with 1e-6 relative matching',
              'generated steps are re-obtained from the object\'s own generator d.step(x, method, n, method_order)',
              'test functions are polynomials (total on C and on bicomplex numbers)']
